@@ -88,6 +88,32 @@ def gen_all(ctx, groups, n_quick, n_thorough, salt):
     for i in range(n):
         plat = rnd.choice(["ios", "nxos"])
         entries = gen_acl(rnd, plat, groups and rnd.random() < 0.5)
-        out.append({"platform": plat, "entries": entries, "numbered": rnd.random() < 0.35,
-                    "grouped": rnd.random() < 0.3, "skip": rnd.choice(SKIPS + [[], []]), "seed": rnd.getrandbits(30)})
+        spec = {"platform": plat, "entries": entries, "numbered": rnd.random() < 0.35,
+                "grouped": rnd.random() < 0.3, "skip": rnd.choice(SKIPS + [[], []]), "seed": rnd.getrandbits(30)}
+        fat, thin = twin(spec, True), twin(spec, False)
+        # the twins are processed in the same interpreter right before and right after the ACL they were made from:
+        # the same lines, the same group NAMES, other members (first: every group covers all of IPv4, so every
+        # question "is this address inside the group" is answered yes; last: every group is one far-away host) -
+        # an answer remembered under a group's name or text from the previous ACL is wrong in the next
+        out += [spec] if fat is None else [fat, spec, thin]
     return out
+
+
+TWIN_HOSTS = {"G1": 0x0A636301, "G2": 0x0A636302, "SRV": 0x0A636303}
+
+
+def twin(spec, fat):
+    """the same ACL with every address group replaced by the two halves of IPv4 (fat) or by one far-away host
+    (None if the ACL has no group)"""
+    found = False
+    entries = []
+    for kind, x in spec["entries"]:
+        if kind == "ace":
+            x = dict(x)
+            for f in ("src", "dst"):
+                if x[f][0] == "group":
+                    found = True
+                    mem = [(0, 0x7FFFFFFF), (0x80000000, 0x7FFFFFFF)] if fat else [(TWIN_HOSTS.get(x[f][1], 0x0A636309), 0)]
+                    x[f] = ("group", x[f][1], mem)
+        entries.append((kind, x))
+    return dict(spec, entries=entries) if found else None
